@@ -50,6 +50,7 @@ def patch_text(spec: dict, isa: str) -> str:
             "cfi": f".cfi_adjust_cfa_offset 8\nmovb ${k}, %cl\n.cfi_adjust_cfa_offset -8",
             "cfistate": f".cfi_remember_state\n.cfi_def_cfa_offset 32\nmovb ${k}, %cl\n.cfi_restore_state",
             "align": f".align 4\nmovb ${k}, %cl",
+            "callret": f"call {tgt or 'b1'}\nmovb ${k}, %cl\nret",
         }
         return table[kind]
     if isa == "arm64":
@@ -295,7 +296,7 @@ def run_case(case: dict, sink=None, sequential: bool = False) -> dict:
                 ctx.delete_at(b, rq["off"], rq["len"], retarget_to_proxy=rec["proxy"])
             trace_reqs.append(rec)
         if case.get("insfn", "none") not in ("none", ""):
-            fnspec = {"kind": case["insfn"], "k": 77}
+            fnspec = {"kind": case["insfn"], "k": 77, "tgt": "b1"}
             insfn_rec = {"name": "newfn", "patch": assemble_standalone(shape, fnspec)}
             ctx.register_insert_function("newfn", make_patch(fnspec, isa, ctxlog, fault))
         stage = "apply"
